@@ -239,35 +239,11 @@ Fixpoint find_empty_link (l : list str) (idx : nat) : option nat :=
   | _ => None
   end.
 
-Definition w_posts := s2l "Posts".
-Definition w_other := s2l "Other".
-Definition w_and := s2l "and".
-Definition t_ul_close := s2l "</ul>".
-
-(* the leftover special case for the words "and Other Posts" *)
-Fixpoint posts_special (post : list str) (idx : nat) (cur_len : nat) (cur : list str) : list token * list str :=
-  (* iterates over the ORIGINAL post_tags while customized.post_tags ([cur]) is rebound *)
-  match post with
-  | [] => ([], cur)
-  | t :: post' =>
-      if starts_with t_ul_close t then
-        let sp := [spacer [] []; spacer (skipn idx cur) []] in
-        let cur' := firstn idx cur in
-        let (more, final) := posts_special post' (S idx) cur_len cur' in (sp ++ more, final)
-      else posts_special post' (S idx) cur_len cur
-  end.
-
 Fixpoint find_sep_post (l : list str) (idx : nat) : option nat :=
   match l with
   | [] => None
   | t :: l' => if separatable t then Some idx else find_sep_post l' (S idx)
   end.
-
-Definition prev_text (all : list token) (i back : nat) : str :=
-  (* str(tokens[token_index - back]) with Python's negative indexing *)
-  let n := List.length all in
-  let j := if Nat.leb back i then (i - back)%nat else (n + i - back)%nat in
-  match nth_error all j with Some t => t_text t | None => [] end.
 
 (* phase 2 for one token *)
 Definition customize_one (all : list token) (i : nat) (tok : token) : list token :=
@@ -280,16 +256,12 @@ Definition customize_one (all : list token) (i : nat) (tok : token) : list token
                       | None => ([], pre1)
                       end in
   let tok1 := set_pre tok pre2 in
-  let is_word_text := match t_kind tok with KImg _ => false | _ => true end in
-  let '(sp3, post3) :=
-    if is_word_text && str_eqb (t_text tok) w_posts && str_eqb (prev_text all i 1) w_other && str_eqb (prev_text all i 2) w_and
-    then posts_special (t_post tok1) 0 (List.length (t_post tok1)) (t_post tok1)
-    else ([], t_post tok1) in
+  let post3 := t_post tok1 in
   let '(sp4, post4) := match find_sep_post post3 0 with
                        | Some k => ([spacer [] (skipn k post3); spacer [] []; spacer [] []], firstn k post3)
                        | None => ([], post3)
                        end in
-  sp1 ++ sp2 ++ [set_post tok1 post4] ++ sp3 ++ sp4.
+  sp1 ++ sp2 ++ [set_post tok1 post4] ++ sp4.
 
 Fixpoint customize_all (all : list token) (i : nat) (l : list token) : list token :=
   match l with
